@@ -2191,7 +2191,7 @@ def distributed_shampoo(
       if not _skip_preconditioning(param):
         shapes = preconditioner.shapes_for_preconditioners()
         sizes = [s[0] for s in shapes]
-        max_size = max(max(sizes), max_size)
+        max_size = max(max(sizes, default=0), max_size)
 
     padded_statistics = []
     padded_preconditioners = []
@@ -2281,7 +2281,7 @@ def distributed_shampoo(
       if not _skip_preconditioning(param):
         shapes = preconditioner.shapes_for_preconditioners()
         sizes = [s[0] for s in shapes]
-        max_size = max(max(sizes), max_size)
+        max_size = max(max(sizes, default=0), max_size)
     return max_size
 
   def _remove_leading_sharding_annotation(pspec):
